@@ -316,6 +316,14 @@ func (e *Explorer) runPath(it *Interp, job Job) {
 		if !it.cfg.hangIsViolation && len(r.Inconclusive) < 20 {
 			r.Inconclusive = append(r.Inconclusive, "budget exhausted: "+detail)
 		}
+		// paths that run out of budget are expensive and, past the first few, add nothing to the
+		// verdict (a hang violation, or inconclusive): stop exploring this harness
+		// (only where exhausting the budget is inconclusive anyway; a harness that declared Terminates
+		// sets its own small budget and is explored completely)
+		if r.PathsBudget >= 24 && !e.stopAll && !it.cfg.hangIsViolation {
+			e.stopAll = true
+			r.Inconclusive = append(r.Inconclusive, "exploration stopped after 24 paths exhausted the instruction budget")
+		}
 	case "deadlock":
 		r.PathsDone++
 		if !it.cfg.hangIsViolation && len(r.Inconclusive) < 20 {
